@@ -1471,7 +1471,8 @@ int32_t tls13ParseServerHello(ssl_t *ssl,
     }
 
     /* Now we can do the postponed checks. */
-    if ((ssl->cipher = sslGetCipherSpec(ssl, cipher)) == NULL)
+    if ((ssl->cipher = sslGetCipherSpec(ssl, cipher)) == NULL
+            || !sslClientOfferedSuite(ssl, cipher))
     {
         ssl->err = SSL_ALERT_ILLEGAL_PARAMETER;
         psTraceIntInfo("Can't support requested cipher: %d\n", cipher);
